@@ -419,7 +419,8 @@ macro_rules! nat_roundtrip {
     };
 }
 
-// quick tier: [1, 2^16); thorough: [2^16, 2^32) completes the u32 range
+// quick tier: [1, 2^12); thorough: [1, 2^16) and [2^16, 2^32) complete the u32 range
+nat_roundtrip!(k13_5_nat_roundtrip_u12range, 1, 1usize << 12, 14);
 nat_roundtrip!(k13_5_nat_roundtrip_u16range, 1, 1usize << 16, 18);
 nat_roundtrip!(k13_5_nat_roundtrip_u32range, 1usize << 16, 1usize << 32, 34);
 
